@@ -180,6 +180,7 @@ package base
 //@   props C01, C16
 //@   requires e != nil && (e.sc != nil ==> e.sc.ctxPool != nil) && (e.ctx != nil ==> e.ctx.Input != nil)
 //@   requires[options-not-nil] forall k Int :: 0 <= k && k < len(exitOps) ==> exitOps[k] != nil
+//@   objinv oncedone(e.exitCtl) ==> e.exited != 0
 //@   panics never
 //@   let done0 = oncedone(e.exitCtl)
 //@   let ctx = e.ctx
@@ -189,14 +190,31 @@ package base
 //@   case with-options: len(exitOps) > 0
 //@   ensures[idempotent] done0 ==> gCompN == c0 && gHandlerN == old(gHandlerN) && gAdded == old(gAdded) && gConc == old(gConc) && (ctx != nil ==> ctx.err == old(ctx.err) && ctx.Resource == old(ctx.Resource))
 //@   ensures[marks-done] ctx != nil ==> oncedone(e.exitCtl)
+//@   ensures[marks-exited] ctx != nil ==> e.exited != 0
 //@   ensures[completion-at-most-once] gCompN == c0 || (!done0 && !wasBlocked && e.sc != nil && gCompN == c0 + len(e.sc.stats) && (forall j Int :: c0 <= j && j < gCompN ==> sel(gCompRecv, j) == dynptr(e.sc.stats[j - c0])))
 //@   ensures[blocked-no-completion] wasBlocked ==> gCompN == c0
 //@   ensures[recycled] !done0 && ctx != nil && e.sc != nil ==> ctx.Resource == nil && ctx.err == nil && dynptr(ctx.StatNode) == 0
-//@   modifies gCompN, gCompRecv, gHandlerN, gAdded, gConc, oncedone(e.exitCtl), fields(e.ctx), fields(e.ctx.Input), fields(e.ctx.RuleCheckResult)
+//@   modifies gCompN, gCompRecv, gHandlerN, gAdded, gConc, oncedone(e.exitCtl), e.exited, fields(e.ctx), fields(e.ctx.Input), fields(e.ctx.RuleCheckResult)
 //@   replay base_exit_late_error@api
 //@   loop 1:
 //@     invariant[no-option-no-error] len(exitOps) == 0 ==> options.err == nil
 //@     invariant[frame] frame()
+
+// C01: late calls on an already-exited entry change nothing for any entry (after the first Exit the context belongs to
+// the pool again and may already serve another entry) — also a late TraceError / SetError / SetPair
+//@ func (e *SentinelEntry) SetError(err)
+//@   props C01
+//@   requires e != nil
+//@   objinv oncedone(e.exitCtl) ==> e.exited != 0
+//@   ensures[late-call-changes-nothing] oncedone(e.exitCtl) ==> frame()
+//@   ensures[live-entry-records-its-error] e.exited == 0 && e.ctx != nil ==> e.ctx.err == err
+//@   modifies e.ctx.err
+//@   replay base_late_set_error@api for late-call-changes-nothing
+//@ func (e *SentinelEntry) SetPair(key, val)
+//@   props C01
+//@   requires e != nil
+//@   objinv oncedone(e.exitCtl) ==> e.exited != 0
+//@   ensures[late-call-changes-nothing] oncedone(e.exitCtl) ==> frame()
 
 // sync.Pool ownership contract for the context pool (assumed): Get hands out a context nobody else holds, as left
 // by the pool's New function or by EntryContext.Reset; only its start time is written here.
